@@ -40,7 +40,7 @@
      success of the conversions (C03 / C04): every theorem is about round trips that return;
      source text level (ast.unparse / ast.parse between the two conversions): C03Spec.reparse_stmt's business;
      _merge_inner_function (class with merge_inner_function) and the FunctionType (live object) path of parse.function. *)
-From Coq Require Import List.
+From Coq Require Import List ZArith.
 From Coq Require String.
 Import String.StringSyntax.
 From DT Require Import PyStr Sexp PyVal TyExpr PureUtils Defaults PyAst IR Merge EmitAst C16Spec C16RoundTrip C16Facts C16RoundTripFacts.
@@ -300,3 +300,55 @@ Theorem C16_rt_function_side_conditions_needed :
                    /\ body_stmts b = [SExpr (EName (L "x"))]).
 Proof. exact rt_function_side_conditions_needed. Qed.
 Print Assumptions C16_rt_function_side_conditions_needed.
+
+(* ================================================================== class: classifier, guard (follow-up)
+   finding_class_rt_class (model/C16RoundTrip.v, asked through the driver as c16rt_class_class) names the class
+   `class-method-rehomed-or-dropped` exactly when the class body has a statement that is not an attribute
+   (AnnAssign / Assign) after its docstring; guard_rt_class is its complement on class statements.
+   PROVED: inside the guard the emitted body is docstring + one annotated assignment per attribute + at most
+   the __call__ emit.class_ generates from the return entry (emit_call, attributes and a return_type present);
+   without emit_call the non-attribute statements of the class are kept (there are none, and none appear).
+   The __call__-only case does NOT hold (C16_rt_class_call_only_witness: nested like any other method).
+   NOT PROVED: parse.class_ with merge_inner_function; Module input with several classes (find_class). *)
+Theorem C16_rt_class_partial :
+  forall di nm bs cbody dc pn it pww pt ec cn bases decos ww tds n' bs' body' dc' i2,
+    rt_class di (ParseAst.CStmt (SClass nm bs cbody dc)) pn it pww pt ec cn bases decos ww tds
+    = Ok (SClass n' bs' body' dc', i2) ->
+    guard_rt_class (SClass nm bs cbody dc) ec = true ->
+    exists i text attrs meth,
+      ParseAst.parse_class di (ParseAst.CStmt (SClass nm bs cbody dc)) pn it pww = Ok i
+      /\ tds = Ok text
+      /\ body' = SExpr (set_value (VStr (class_docstring text))) :: attrs ++ meth
+      /\ Forall (fun s => ParseAst.is_assignment s = true) attrs
+      /\ generated_call pt i ec ww meth
+      /\ class_extras (body_stmts body') = class_extras (body_stmts cbody) ++ meth.
+Proof. exact rt_class_partial_lemma. Qed.
+Print Assumptions C16_rt_class_partial.
+
+Theorem C16_rt_class_partial_no_call :
+  forall di nm bs cbody dc pn it pww pt cn bases decos ww tds n' bs' body' dc' i2,
+    rt_class di (ParseAst.CStmt (SClass nm bs cbody dc)) pn it pww pt false cn bases decos ww tds
+    = Ok (SClass n' bs' body' dc', i2) ->
+    guard_rt_class (SClass nm bs cbody dc) false = true ->
+    class_extras (body_stmts body') = class_extras (body_stmts cbody).
+Proof. exact rt_class_partial_no_call_lemma. Qed.
+Print Assumptions C16_rt_class_partial_no_call.
+
+Theorem C16_rt_class_witness_class : forall ec, finding_class_rt_class wc_class ec = Some rt_class_class_name.
+Proof. exact rt_class_witness_class. Qed.
+Print Assumptions C16_rt_class_witness_class.
+
+Theorem C16_rt_class_call_only_witness :
+  finding_class_rt_class wc_call_class true = Some rt_class_class_name
+  /\ exists doc attr, class_body_of (wc_run_of wc_call_class true) = Some [doc; attr; call_meth [wc_call]].
+Proof. exact rt_class_call_only_witness. Qed.
+Print Assumptions C16_rt_class_call_only_witness.
+
+Example C16_rt_class_nonvacuous :
+  guard_rt_class wc_attrs_class true = true /\ guard_rt_class wc_ret_class true = true
+  /\ (exists doc, class_body_of (wc_run_of wc_attrs_class true) = Some [doc; wc_attr])
+  /\ (exists doc ret, class_body_of (wc_run_of wc_ret_class true)
+                      = Some [doc; wc_attr; ret; call_meth [SReturn (Some (EConst (VInt 5%Z)))]])
+  /\ (exists doc ret, class_body_of (wc_run_of wc_ret_class false) = Some [doc; wc_attr; ret]).
+Proof. exact rt_class_nonvacuous_lemma. Qed.
+Print Assumptions C16_rt_class_nonvacuous.
